@@ -20,7 +20,7 @@ PROPERTY = "C10"
 REPLAY_FUNC = "run_history"
 RULE = ("E2 BFS: histories of <= D operations from the alphabet {portfolio set-up on grid i with price set j (4x2), stand-alone asset "
         "set-up (3 assets x 2 grids), set-up with the grid set previously (2), split set-up (2), optimise + extract_output, to_json, "
-        "flat portfolio sharing the structured asset's inner assets (2), cost samples (2), set-up with a user-supplied fix_time_window dictionary (2), make_slp (thorough)}; state = canonical hash of all "
+        "flat portfolio sharing the structured asset's inner assets (2), cost samples (2), set-up with a user-supplied fix_time_window dictionary (2), split set-up with prices as a DataFrame without dates (2), stand-alone asset set-up with the grid it was given before (2), make_slp (thorough)}; state = canonical hash of all "
         "objects, grids (incl. cached restricted grid and discount factors) and user data; distinct = distinct states; "
         "non-trivial = transition whose call returned a problem that was compared with the fresh-object problem")
 ASSUMPTIONS = ["EAO keeps state only in the objects hashed by mc/history.py (module dictionaries are hashed before/after each run and must not change)",
@@ -44,7 +44,7 @@ def alphabet(tier):
     for k in ("con", "sto", "st"):
         for gi in (0, 2):
             ops.append(("A", k, gi))
-    ops += [("SP", 0), ("SP", 1), ("SPLIT", 0), ("SPLIT", 1), ("OPT",), ("JSON",), ("FLAT", 0), ("FLAT", 1), ("CS", 0), ("CS", 1), ("ARR", 0), ("ARR", 2), ("FIX", 0), ("FIX", 1)]
+    ops += [("SP", 0), ("SP", 1), ("SPLIT", 0), ("SPLIT", 1), ("OPT",), ("JSON",), ("FLAT", 0), ("FLAT", 1), ("CS", 0), ("CS", 1), ("ARR", 0), ("ARR", 2), ("FIX", 0), ("FIX", 1), ("SPLITDF", 0), ("SPLITDF", 2), ("AP", "con"), ("AP", "sto")]
     if tier == "thorough":
         ops += [("SLP", 0), ("SLP", 1)]
     return ops
@@ -107,6 +107,9 @@ class World:
                 q = p[::-1].copy() + 0.25
                 row.append(dict(p=p, q=q))
             self.P.append(row)
+        # prices as a DataFrame without dates (row i = step i), valid for every grid of four steps
+        self.Pdf4 = pd.DataFrame({k: np.asarray(v, float) for k, v in self.P[0][0].items()})
+        self.acur = {}         # asset -> label of the grid last handed to it
         self.cur = None        # label of the grid last handed to the portfolio
         self.last = None       # (kind, args) of the last portfolio problem
         self.last_op = None
@@ -114,8 +117,8 @@ class World:
 
     def objects(self):
         return dict(con=self.con, sto=self.sto, tr=self.tr, mk2=self.mk2, isto=self.isto, itr=self.itr, st=self.st, pf=self.pf,
-                    fm=self.fm, flat=self.flat, capd=self.capd, taked=self.taked, P=self.P, ob=self.ob, late=self.late, pl=self.pl, cap_arr=self.cap_arr, cap4=self.cap4, arr4=self.arr4, pf_arr=self.pf_arr, xtr=self.xtr, xtake=self.xtake, orders=self.orders, orders_df=self.orders_df, fw=self.fw, pf_fix=self.pf_fix,
-                    ctx=(self.cur, self.last, None if self.last_op is None else "op"))
+                    fm=self.fm, flat=self.flat, capd=self.capd, taked=self.taked, P=self.P, ob=self.ob, late=self.late, pl=self.pl, cap_arr=self.cap_arr, cap4=self.cap4, arr4=self.arr4, pf_arr=self.pf_arr, xtr=self.xtr, xtake=self.xtake, orders=self.orders, orders_df=self.orders_df, fw=self.fw, pf_fix=self.pf_fix, Pdf4=self.Pdf4,
+                    ctx=(self.cur, self.last, None if self.last_op is None else "op", sorted(self.acur.items())))
 
     def key(self):
         from mc import history as H
@@ -125,6 +128,8 @@ class World:
     def enabled(self, op):
         if op[0] == "SP":
             return self.cur is not None
+        if op[0] == "AP":
+            return op[1] in self.acur
         if op[0] in ("OPT",):
             return self.last_op is not None
         if op[0] == "SLP":
@@ -139,11 +144,18 @@ class World:
         if kind == "S":
             _, gi, pj = op
             prob = self.pf.setup_optim_problem(self.P[pj][gi], self.grids[gi])
+            self.acur.update(con=gi, sto=gi)
             self.cur, self.last, self.last_op, self.last_res = gi, ("S", gi, pj), prob, None
             return ("problem", H.problem_hash(prob))
         if kind == "A":
             _, k, gi = op
             prob = getattr(self, k).setup_optim_problem(self.P[0][gi], self.grids[gi])
+            if k in ("con", "sto"):
+                self.acur[k] = gi
+            return ("problem", H.problem_hash(prob))
+        if kind == "AP":   # stand-alone asset with the grid it was given before
+            _, k = op
+            prob = getattr(self, k).setup_optim_problem(self.P[0][self.acur[k]])
             return ("problem", H.problem_hash(prob))
         if kind == "SP":
             _, pj = op
@@ -153,7 +165,12 @@ class World:
         if kind == "SPLIT":
             _, gi = op
             prob = self.pf.setup_split_optim_problem(self.P[0][gi], self.grids[gi], interval_size="12h")
+            self.acur.update(con=gi, sto=gi)
             self.cur, self.last, self.last_op, self.last_res = gi, ("SPLIT", gi), prob, None
+            return ("problem", H.problem_hash(prob))
+        if kind == "SPLITDF":
+            _, gi = op
+            prob = self.pf_fix.setup_split_optim_problem(self.Pdf4, self.grids[gi], interval_size="12h")
             return ("problem", H.problem_hash(prob))
         if kind == "OPT":
             res = self.last_op.optimize(solver="SCIPY")
@@ -173,6 +190,7 @@ class World:
         if kind == "CS":   # cost vectors only (the path used by price samples, SLP and robust optimisation)
             _, gi = op
             cs = self.pf.create_cost_samples([self.P[1][gi]], self.grids[gi])
+            self.acur.update(con=gi, sto=gi)
             self.cur = gi
             return ("costs", chash(np.round(np.asarray(cs[0], float), 9).tolist()))
         if kind == "ARR":
@@ -198,11 +216,15 @@ class World:
 def fresh_reference(op, ctx):
     """what fresh objects return for the same call. ctx = (cur, last) of the world before the call"""
     w = World()
-    cur, last = ctx
+    cur, last = ctx[0], ctx[1]
     kind = op[0]
     if kind == "SP":
         w.pf.set_timegrid(w.grids[cur])
         w.cur = cur
+    if kind == "AP":
+        gi = dict(ctx[2])[op[1]]
+        getattr(w, op[1]).set_timegrid(w.grids[gi])
+        w.acur[op[1]] = gi
     if kind in ("OPT", "SLP"):
         # the last problem, rebuilt on fresh objects
         if last[0] == "S":
@@ -225,10 +247,10 @@ def run_history(case):
     w = World()
     ms0 = H.module_state_hash()
     desc = None
-    ctx = (None, None)
+    ctx = (None, None, ())
     try:
         for i, op in enumerate(hist):
-            ctx = (w.cur, w.last)
+            ctx = (w.cur, w.last, tuple(sorted(w.acur.items())))
             if not w.enabled(op):
                 res.update(status="disabled", validated=False, key=None)
                 return res
